@@ -1037,6 +1037,160 @@ theorem parseChem_write_sep {c : Comp} (elems : List Elem) (hill : Bool) {sep : 
     rw [splitFold_write (fun kv hkv => (hw.2 kv hkv).2) hw.1 (by simp [keys])]
     rfl
 
+/-! ## additivity for arbitrary formula strings -/
+
+theorem spanP_append' (p : Nat → Bool) (x f : Str) (hf : ∀ c r, f = c :: r → p c = false) :
+    spanP p (x ++ f) = ((spanP p x).1, (spanP p x).2 ++ f) := by
+  induction x with
+  | nil =>
+    cases f with
+    | nil => rfl
+    | cons c r => simp [spanP, hf c r rfl]
+  | cons a x ih =>
+    by_cases h : p a = true
+    · simp [spanP, h, ih]
+    · simp [spanP, h]
+
+theorem spanP_fst_length_le (p : Nat → Bool) (x : Str) : (spanP p x).1.length ≤ x.length := by
+  have := congrArg List.length (spanP_spec p x).1
+  simp only [List.length_append] at this
+  omega
+
+/-- the `\.?` step of the count pattern -/
+def dotStep (s2 : Str) : Str × Str :=
+  match s2 with
+  | 46 :: t => ([46], t)
+  | t => ([], t)
+
+/-- `\d*\.?\d*` -/
+def cs2 (s1 : Str) : Str :=
+  (spanP isDigit s1).1 ++ (dotStep (spanP isDigit s1).2).1 ++ (spanP isDigit (dotStep (spanP isDigit s1).2).2).1
+
+theorem countStr_minus (t : Str) : countStr (45 :: t) = 45 :: cs2 t := rfl
+theorem dotStep_dot (t : Str) : dotStep (46 :: t) = ([46], t) := rfl
+theorem dotStep_other (s : Str) (h : ∀ t, s ≠ 46 :: t) : dotStep s = ([], s) := by
+  unfold dotStep
+  split
+  · next t => exact absurd rfl (h t)
+  · rfl
+
+theorem countStr_other (s : Str) (h : ∀ t, s ≠ 45 :: t) : countStr s = cs2 s := by
+  unfold countStr
+  rw [countStr.match_1.eq_2 _ _ _ _ (fun t ht => h t ht)]
+  rfl
+
+theorem spanP_head_false (p : Nat → Bool) (f : Str) (hf : ∀ c r, f = c :: r → p c = false) :
+    (spanP p f).1 = [] := by
+  cases f with
+  | nil => rfl
+  | cons c r => simp [spanP, hf c r rfl]
+
+theorem cs2_append (x f : Str) (hf : ∀ c r, f = c :: r → (isDigit c || c == 46) = false) :
+    cs2 (x ++ f) = cs2 x := by
+  have hd : ∀ c r, f = c :: r → isDigit c = false := by
+    intro c r h; have := hf c r h; simp at this; simp [this.1]
+  have h46 : ∀ t, f ≠ 46 :: t := by
+    intro t h; have := hf 46 t h; simp at this
+  unfold cs2
+  rw [spanP_append' isDigit x f hd]
+  simp only []
+  cases h2 : (spanP isDigit x).2 with
+  | nil =>
+    rw [List.nil_append, dotStep_other f h46, dotStep_other [] (by simp)]
+    simp [spanP_head_false isDigit f hd, spanP]
+  | cons a t =>
+    by_cases ha : a = 46
+    · subst ha
+      simp only [List.cons_append, dotStep_dot, spanP_append' isDigit t f hd]
+    · rw [dotStep_other (a :: t) (by intro t' h; simp at h; exact ha h.1),
+        dotStep_other (a :: t ++ f) (by intro t' h; simp at h; exact ha h.1)]
+      simp only []
+      rw [spanP_append' isDigit (a :: t) f hd]
+
+theorem countStr_append (x f : Str) (hf : ∀ c r, f = c :: r → (isDigit c || c == 45 || c == 46) = false) :
+    countStr (x ++ f) = countStr x := by
+  have hf' : ∀ c r, f = c :: r → (isDigit c || c == 46) = false := by
+    intro c r h; have := hf c r h; simp at this ⊢; exact ⟨this.1.1, this.2⟩
+  cases x with
+  | nil =>
+    have h1 : ∀ t, f ≠ 45 :: t := by
+      intro t h; have := hf 45 t h; simp at this
+    rw [List.nil_append, countStr_other f h1, countStr_other [] (by simp)]
+    simpa using cs2_append [] f hf'
+  | cons a t =>
+    by_cases ha : a = 45
+    · subst ha
+      rw [List.cons_append, countStr_minus, countStr_minus, cs2_append t f hf']
+    · have h1 : ∀ t', a :: t ≠ 45 :: t' := by intro t' h; simp at h; exact ha h.1
+      have h2 : ∀ t', a :: (t ++ f) ≠ 45 :: t' := by intro t' h; simp at h; exact ha h.1
+      rw [List.cons_append, countStr_other _ h2, countStr_other _ h1]
+      exact cs2_append (a :: t) f hf'
+
+theorem cs2_length_le (x : Str) : (cs2 x).length ≤ x.length := by
+  unfold cs2
+  have h1 := congrArg List.length (spanP_spec isDigit x).1
+  simp only [List.length_append] at h1 ⊢
+  cases h2 : (spanP isDigit x).2 with
+  | nil => simp [dotStep, spanP]; omega
+  | cons a t =>
+    rw [h2] at h1
+    have h3 := spanP_fst_length_le isDigit t
+    have h4 := spanP_fst_length_le isDigit (a :: t)
+    by_cases ha : a = 46
+    · subst ha
+      simp only [dotStep_dot, List.length_cons, List.length_nil] at h1 ⊢
+      omega
+    · rw [dotStep_other (a :: t) (by intro t' h; simp at h; exact ha h.1)]
+      simp only [List.length_cons, List.length_nil] at h1 h4 ⊢
+      omega
+
+theorem countStr_length_le (x : Str) : (countStr x).length ≤ x.length := by
+  cases x with
+  | nil => simp [countStr, spanP]
+  | cons a t =>
+    by_cases ha : a = 45
+    · subst ha
+      rw [countStr_minus]
+      have := cs2_length_le t
+      simp; omega
+    · rw [countStr_other _ (by intro t' h; simp at h; exact ha h.1)]
+      exact cs2_length_le _
+
+/-- the tokenizer does not look across a boundary that is followed by an upper-case letter -/
+theorem finditer_append (f : Str) (hf : ∀ c r, f = c :: r → isUpper c = true) :
+    ∀ (a : Str) (n : Nat), n ≤ a.length →
+      finditerCondensed n (a ++ f) = finditerCondensed n a ++ finditerCondensed 0 f := by
+  have hlow : ∀ c r, f = c :: r → isLower c = false := by
+    intro c r h; have := hf c r h; simp [isUpper, isLower] at this ⊢; omega
+  have hcc : ∀ c r, f = c :: r → (isDigit c || c == 45 || c == 46) = false := by
+    intro c r h; have := hf c r h; simp [isUpper, isDigit] at this ⊢; omega
+  intro a
+  induction a with
+  | nil => intro n hn; simp at hn; subst hn; simp [finditerCondensed]
+  | cons c r ih =>
+    intro n hn
+    cases n with
+    | succ k =>
+      simp only [List.cons_append, finditerCondensed]
+      exact ih k (by simpa using hn)
+    | zero =>
+      have hl := spanP_fst_length_le isLower r
+      by_cases hu : isUpper c = true
+      · have hdrop : List.drop (spanP isLower r).1.length (r ++ f) = List.drop (spanP isLower r).1.length r ++ f := by
+          rw [List.drop_append_of_le_length hl]
+        have hc2 := countStr_length_le (List.drop (spanP isLower r).1.length r)
+        simp only [List.length_drop] at hc2
+        simp only [List.cons_append, finditerCondensed, hu, if_true, spanP_append' isLower r f hlow, hdrop,
+          countStr_append _ f hcc]
+        rw [ih _ (by omega)]
+      · by_cases hp : (c == 101 || c == 112 || c == 110) = true
+        · have hc2 := countStr_length_le r
+          simp only [List.cons_append, finditerCondensed, hu, hp, if_true, Bool.false_eq_true, if_false,
+            countStr_append _ f hcc]
+          rw [ih _ hc2]
+        · simp only [List.cons_append, finditerCondensed, hu, hp, Bool.false_eq_true, if_false]
+          exact ih 0 (by omega)
+
 /-! ## the domain of C15 stated without reference to the printed text
 
 `NumWF v` (a Python int, or a float that is a finite decimal) implies `NumOK v` (`Lemmas/NumText.lean`). -/
